@@ -43,6 +43,7 @@ func cmdRandom(args []string) {
 	verbose := fs.Bool("v", false, "")
 	followers := fs.String("followers", "", "comma list of back-ends for follower nodes that import every block (memory|leveldb|pebble)")
 	reexec := fs.String("reexec", "", "comma list of GOMAXPROCS values for re-executing each block before insertion")
+	trimspend := fs.Int("trimspend", 0, "attempts to spend a small output in exactly the block that trims it")
 	fresh := fs.Int("fresh", 0, "compare with a fresh node that only saw the canonical chain every N steps (and at the end)")
 	fs.Parse(args)
 
@@ -98,6 +99,17 @@ func cmdRandom(args []string) {
 	if err != nil {
 		fatal(3, "warm-up:", err)
 	}
+	realised := 0
+	for i := 0; i < *trimspend; i++ {
+		ok, err := r.TrimSpend(*trim)
+		if err != nil {
+			fatal(3, "trimspend:", err)
+		}
+		if ok {
+			realised++
+		}
+	}
+	head = r.Blocks2Head()
 	base := head
 	if *shapes != "" {
 		f, err := os.Open(*shapes)
@@ -176,7 +188,7 @@ func cmdRandom(args []string) {
 	}
 	bw.Flush()
 	w.Close()
-	sum := map[string]interface{}{"events": len(r.Events), "blocks": len(r.Blocks) - 1, "entries": r.NumEntries(), "problems": r.Problems, "backend": *backend,
+	sum := map[string]interface{}{"events": len(r.Events), "blocks": len(r.Blocks) - 1, "entries": r.NumEntries(), "problems": r.Problems, "backend": *backend, "trimspend_realised": realised,
 		"reexecutions": r.Reexecs, "follower_checks": r.FollowerChecks, "fresh_replays": r.FreshReplays}
 	b, _ := json.Marshal(sum)
 	fmt.Println(string(b))
